@@ -76,6 +76,8 @@ def case_text(c):
             L.append("life %d" % h["life"])
         if h.get("ignoreterm"):
             L.append("ignoreterm 1")
+        if h.get("termgrace"):
+            L.append("termgrace %d" % h["termgrace"])
         for key in ("out", "err"):
             for at, d in h.get(key, []):
                 L.append("%s %d %s" % (key, at, d))
